@@ -232,6 +232,18 @@ fn test_duration(c: &ZDur, cx: &mut Cx) -> CaseResult {
         cmp_res("saturating_add(std)", &ctx, Ok(zdt.saturating_add(u)), &wsat_add, &z, cx)?;
         cmp_res("saturating_sub(std)", &ctx, Ok(zdt.saturating_sub(u)), &wsat_sub, &z, cx)?;
     }
+    // unsigned durations beyond what a signed duration can hold (> 2^63 seconds): always out of
+    // range; the saturating forms clamp and keep the zone
+    for (k, u) in [std::time::Duration::MAX, std::time::Duration::new(1 << 63, 0), std::time::Duration::new((1 << 63) + 1 + (c.secs.unsigned_abs() >> 2), c.nanos.unsigned_abs())].into_iter().enumerate() {
+        let ctx = format!("[{}] {zdt} with huge std Duration #{k} ({u:?})", z.label);
+        cmp_res("checked_add(huge std)", &ctx, zdt.checked_add(u), &Res::Err, &z, cx)?;
+        cmp_res("checked_sub(huge std)", &ctx, zdt.checked_sub(u), &Res::Err, &z, cx)?;
+        cmp_res("saturating_add(huge std)", &ctx, Ok(zdt.saturating_add(u)), &lim(false), &z, cx)?;
+        cmp_res("saturating_sub(huge std)", &ctx, Ok(zdt.saturating_sub(u)), &lim(true), &z, cx)?;
+        let ts = zdt.timestamp();
+        ensure!(ts.checked_add(u).is_err() && ts.checked_sub(u).is_err(), "timestamp-accepts-huge-std-duration", "{ctx}: Timestamp::checked_add/sub accepted it");
+        ensure!(ts.saturating_add(u).ok() == Some(jiff::Timestamp::MAX) && ts.saturating_sub(u).ok() == Some(jiff::Timestamp::MIN), "timestamp-saturating-huge-std-duration", "{ctx}: Timestamp saturating forms = {:?} / {:?}", ts.saturating_add(u), ts.saturating_sub(u));
+    }
     // operator forms (documented to panic on overflow: only when in range)
     if let Res::Instant(_) = want {
         cmp_res("&zdt+duration", &ctx, Ok(&zdt + d), &want, &z, cx)?;
